@@ -110,4 +110,19 @@ CLAIMED['C16'] = dict(
     technique='Lean 4 invariant proof over value histories + differential correspondence + live-object bookkeeping check',
 )
 
+CLAIMED['C20'] = dict(
+    text='Theorems (Props/C20.lean) about the lifecycle model for EVERY sequence of System() creations, asset creations, '
+         'simulate calls and look-ups: every asset is registered with exactly one system (the latest at creation), is '
+         'initialised exactly once iff its system has started simulating (immediately when created afterwards) and at most once '
+         'ever; only the latest system simulates (otherwise error, state unchanged); continuing a simulation re-initialises '
+         'nothing; find_assets returns exactly the registered assets matching all filters in registration order. Regenerated '
+         'facts (proved by decide on every run): no constructor registers the asset itself, registration happens after all '
+         'constructors (metaclass __call__, fix F5), add_asset initialises at once when running, simulate guards the latest '
+         'system and initialises once. "Behaves like the same asset created before the start": the world model\'s constructor '
+         'call + immediate initialisation is compared with the real code for every asset kind created before / between / '
+         'during runs (family sys), plus family sysm for the lifecycle operations.',
+    note=BASE_NOTE + ' The late-creation clause is established by correspondence with the model (testing), not by a theorem.',
+    technique='Lean 4 invariant proof over the lifecycle model + regenerated AST facts + differential correspondence',
+)
+
 NOT_CLAIMED = {}
